@@ -320,6 +320,7 @@ Ltac bsolve2 :=
   end;
   rw_atoms; cbn_st; use_impl; cbn_st; try reflexivity; try congruence;
   try (exfalso;
+       repeat match goal with O : t_watcher ?th = _ -> _ |- _ => destruct (t_watcher th) eqn:?; use_impl end;
        repeat match goal with H : _ /\ _ |- _ => destruct H end;
        first [ congruence | lia ]).
 
@@ -350,6 +351,35 @@ Proof.
     try (match goal with O : t_watcher ?th = _ -> false = true |- _ =>
            destruct (t_watcher th) eqn:?; use_impl; congruence end);
     bsplit_hyps; bsplit_goal; try (rewrite Nat.eqb_refl); bsolve2.
-  all: match goal with |- ?g => idtac "GOAL" g end.
-  Show. Show 2.
+Qed.
+
+Lemma invB_step_ginv s l s' :
+  InvA s -> InvB s -> stepf s l = Some s' -> ginv s' = true.
+Proof.
+  intros (A1 & A2 & A3 & A4 & A5 & A6) (T & G & B2 & C4) H.
+  step_inv H; try exact G;
+    pose proof (T _ _ Hth) as Tt;
+    pose proof (A3 _ _ Hth) as O3; pose proof (A4 _ _ Hth) as O4;
+    unfold tinv, ginv in *; cbn_st; rewrite ?Hpc in *; cbn_st;
+    try (destruct (t_call th) as [|[|] ?| |?] eqn:Hcall; cbn_st; try discriminate);
+    bsplit_hyps; bsplit_goal; bsolve2.
+Qed.
+
+Lemma invB_step_holder s l s' :
+  InvA s -> InvB s -> stepf s l = Some s' ->
+  forall t, mu s' = Some t -> exists th, threads s' t = Some th /\ in_cs (t_pc th) = true.
+Proof.
+  intros (A1 & A2 & A3 & A4 & A5 & A6) (T & G & B2 & C4) H.
+  step_inv H; intros x Hx; cbn_st; try discriminate;
+  try (inversion Hx; subst; eexists; split; [apply upd_same|reflexivity]; fail);
+  try (destruct (B2 _ Hx) as (thx & Hx1 & Hx2);
+       match goal with
+       | |- exists _, upd _ ?u _ _ = _ /\ _ =>
+         destruct (Nat.eq_dec x u) as [E|Hne];
+         [ subst; try (exfalso; pose proof (A1 _ _ Hx1); lia);
+           rewrite Hth in Hx1; inversion Hx1; subst; rewrite ?Hpc in Hx2; cbn in Hx2; try discriminate Hx2;
+           eexists; split; [apply upd_same | norm_finish; cbn_st; try reflexivity; try (destruct hit; reflexivity)]
+         | eexists; split; [rewrite upd_other by assumption; eassumption | assumption] ]
+       end; fail).
+  Show.
 Admitted.
